@@ -124,6 +124,19 @@ theorem deliveries_append (cfg : Cfg) (s : ObsState) (es es' : List TEvent) :
       deliveries cfg s es ++ deliveries cfg (finalState cfg s es) es' := by
   simp [deliveries, trace_append]
 
+-- single steps from `observing` ------------------------------------------------------------------
+
+/-- what one notification does while an observation is established -/
+theorem step_notification (cfg : Cfg) (v1 t1 t : Nat) (m : Msg) (v2 : Nat) (last : Bool)
+    (h : m.obs = some v2) :
+    step cfg (.observing v1 t1) ⟨t, .message m last⟩ =
+      (if last then .ended else if fresher cfg.reset v1 t1 v2 t then .observing v2 t
+        else .observing v1 t1,
+       (if fresher cfg.reset v1 t1 v2 t then [.callback m] else []) ++
+       (if last then [.errback .observationCancelled] else [])) := by
+  simp only [step, stepObserving, h]
+  cases last <;> simp
+
 -- states in which nothing is handed over any more ----------------------------------------------
 
 /-- the application cancelled, the runner has returned, or the model was left -/
